@@ -350,11 +350,14 @@ func workerMain(s Stream) {
 }
 
 // runIsolated drives worker subprocesses over the cases, restarting after a death or timeout.
+// workerBin is the binary used for worker subprocesses (the race-enabled build for C15).
+var workerBin = os.Args[0]
+
 func runIsolated(stream string, cases []Case, perCase time.Duration, impls []string) {
 	next := 0
 	for next < len(cases) {
-		cmd := exec.Command(os.Args[0], "-worker", "-stream", stream)
-		cmd.Env = append(os.Environ(), "VERIF_WORKER=1")
+		cmd := exec.Command(workerBin, "-worker", "-stream", stream)
+		cmd.Env = append(os.Environ(), "VERIF_WORKER=1", "GORACE=halt_on_error=1")
 		stdin, _ := cmd.StdinPipe()
 		stdout, _ := cmd.StdoutPipe()
 		var stderr bytes.Buffer
@@ -394,6 +397,7 @@ func runIsolated(stream string, cases []Case, perCase time.Duration, impls []str
 				timer.Stop()
 				if !ok {
 					// worker died while running case `next`
+					_ = cmd.Wait()
 					tail := stderr.String()
 					if len(tail) > 1500 {
 						tail = tail[len(tail)-1500:]
@@ -409,7 +413,11 @@ func runIsolated(stream string, cases []Case, perCase time.Duration, impls []str
 					case strings.Contains(tail, "DATA RACE"):
 						key = "process-died:race"
 					}
-					impls[next] = key + " " + strings.ReplaceAll(firstLines(tail, 6), "\n", " | ")
+					n := 6
+					if strings.HasSuffix(key, "race") {
+						n = 24
+					}
+					impls[next] = key + " " + strings.ReplaceAll(firstLines(tail, n), "\n", " | ")
 					next++
 					dead = true
 				} else if !m.Begin {
